@@ -336,6 +336,10 @@ impl Prop for C20 {
     fn mode(&self) -> Mode {
         Mode::Children
     }
+    fn crash_is_violation(&self) -> bool {
+        // totality of the evaluators is C11's subject
+        false
+    }
     fn n_cases(&self, tier: Tier) -> u64 {
         tier.pick(20_000, 400_000)
     }
